@@ -560,6 +560,8 @@ def illumination_preparation(check, prog):
     a_da = intern(('call', 'isinstance', (wl, ('extref', 'xarray.DataArray')), ()))
     a_one = intern(('cmp', '==', ('call', 'len', (wl,), ()), num(1)))
     a_det = intern(('cmp', 'in', ILL, ('attr', D, 'dims')))
+    a_same = intern(('cmp', '==', ('call', 'len', (('attr', D, 'illumination'),), ()),
+                     ('call', 'len', (wl,), ())))
     from hpstatic.logic import cmp_is
 
     def match(t, atom):
@@ -590,11 +592,14 @@ def illumination_preparation(check, prog):
             t == ('call', 'numpy.tile', (wl, nchan), ())
     bad = []
     rows = 0
-    for many, twod, inpol, isda, one, indet in itertools.product((True, False), repeat=6):
+    for many, twod, inpol, isda, one, indet, same in itertools.product(
+            (True, False), repeat=7):
         if many and one:
             continue                      # len > 1 and len == 1 cannot both hold
+        if same and not indet:
+            continue                      # no channels to be as many as
         val = {a_many: many, a_2d: twod, a_pol: inpol, a_da: isda, a_one: one,
-               a_det: indet}
+               a_det: indet, a_same: same}
 
         def hyp(t):
             for a, b in val.items():
@@ -602,8 +607,8 @@ def illumination_preparation(check, prog):
                     return b
             return None
         row = 'len(wavelen)>1=%s, polarization 2-d=%s, polarization has channels=%s, ' \
-            'wavelen is labelled=%s, len(wavelen)==1=%s, detector has channels=%s' % (
-                many, twod, inpol, isda, one, indet)
+            'wavelen is labelled=%s, len(wavelen)==1=%s, detector has channels=%s, ' \
+            'as many as wavelengths=%s' % (many, twod, inpol, isda, one, indet, same)
         leaf = select(v, hyp)
         rows += 1
         if leaf is None:
@@ -640,6 +645,14 @@ def illumination_preparation(check, prog):
         elif inpol:
             okw = labelled(W, repeated if one else (lambda t: t == wl),
                            intern(('attr', pol, 'illumination')))
+        elif indet and same:
+            # positional wavelengths for a detector that has as many channels: the
+            # result has to lie on the detector's channel labels, or nothing that
+            # is aligned with the data by label (residuals, per-channel scaling
+            # and noise) finds its channel
+            dl = intern(('attr', D, 'illumination'))
+            okw = labelled(W, lambda t: t == wl, dl) or \
+                labelled(W, lambda t: t == wl, intern(('attr', dl, 'values')))
         else:
             okw = labelled(W, lambda t: t == wl, wl)
         if not okw:
@@ -653,13 +666,14 @@ def illumination_preparation(check, prog):
                     ('list', (('const', 'vector'),)), ('tuple', (('const', 'vector'),)))
         if not okp:
             bad.append(row + ': polarizations become ' + show(P)[:100])
-    check.floor('rows of the illumination-preparation table', rows, 40)
+    check.floor('rows of the illumination-preparation table', rows, 60)
     check.require(not bad, 'S4-channel-pairing', 'prep_schema',
                   'a single-channel schema passes unchanged; otherwise wavelength k '
                   'carries the channel label of polarisation k (a single wavelength is '
                   'repeated per channel), or one polarisation is broadcast over the '
                   'wavelengths; a detector that already has channels contributes its '
-                  'first one (%d rows)' % rows, loc, fail_detail='; '.join(bad[:3]))
+                  'first one, and its channel labels to as many unlabelled wavelengths '
+                  '(%d rows)' % rows, loc, fail_detail='; '.join(bad[:3]))
 
 
 
